@@ -105,7 +105,13 @@ func (pr *Program) VerifyFunc(fi *FuncInfo) (rep *FuncReport) {
 	}
 	x.bindParams(s, cc, fi.Decl.Type, fi.Decl.Recv, recv, args, fi.Decl.Pos())
 	if fi.Lit != nil {
-		x.bindCaptured(s, cc, fi)
+		ownCtx := false
+		for i := 0; i < sig.Params().Len(); i++ {
+			if isCtxType(sig.Params().At(i).Type()) {
+				ownCtx = true
+			}
+		}
+		x.bindCaptured(s, cc, fi, wid, ownCtx)
 	}
 	sc := &specCtx{fi: fi, bound: map[string]*Value{}}
 	for i, t := range cc.resTypes {
@@ -618,7 +624,7 @@ func (x *Exec) bindPostLets(es *State, c *Contract, sc *specCtx) {
 
 // bindCaptured gives every variable a function literal captures from its enclosing function an unconstrained symbolic value
 // (any value the enclosing function could have left there); relations between captured variables go into requires.
-func (x *Exec) bindCaptured(s *State, cc *callCtx, fi *FuncInfo) {
+func (x *Exec) bindCaptured(s *State, cc *callCtx, fi *FuncInfo, mainWorld int, ownCtx bool) {
 	info := fi.Pkg.P.TypesInfo
 	seen := map[types.Object]bool{}
 	var order []*types.Var
@@ -644,6 +650,9 @@ func (x *Exec) bindCaptured(s *State, cc *callCtx, fi *FuncInfo) {
 	for _, v := range order {
 		var val *Value
 		switch {
+		case isCtxType(v.Type()) && !ownCtx:
+			// a literal without its own context parameter works on the captured context: that is "the" chain state
+			val = &Value{K: KCtx, Typ: v.Type(), W: mainWorld}
 		case isCtxType(v.Type()):
 			w := NewWorld("wcap." + v.Name())
 			val = &Value{K: KCtx, Typ: v.Type(), W: s.NewWorldID(w)}
